@@ -1,7 +1,7 @@
 (** * C11 property theorems — statements only; proofs live in C11/SafetyProofs.v. *)
 From Coq Require Import Reals ZArith List.
 From Celer Require Import Base.Num Base.NumR Base.Vec3
-  C12.Solver C12.Surfaces C12.SurfacesProofs C11.Safety C11.SafetyProofs.
+  C12.Solver C12.Surfaces C12.SurfacesProofs C11.Safety C11.SafetyProofs C11.Msc C11.MscProofs C11.MscBoundProofs C12.Transforms C11.Levels C11.LevelsProofs.
 Import ListNotations.
 Local Open Scope R_scope.
 
@@ -90,3 +90,78 @@ Theorem C11_safety_center_refuted :
     sqrt (dist2 p x) = 2 /\ surf_f s x = 0 /\ ~ same_side s p x.
 Proof. exact safety_center_refuted. Qed.
 Print Assumptions C11_safety_center_refuted.
+
+(** ** The MSC users of the safety (em/msc/UrbanMsc.hh apply_step, detail/UrbanMscScatter.hh,
+    detail/UrbanMscSafetyStepLimit.hh) *)
+(** the displacement UrbanMscScatter applies is no longer than (1 - safety_tol) * safety
+    (and than calc_displacement); strictly inside the safety sphere for a positive tolerance *)
+Theorem C11_msc_displacement_within_safety :
+  forall safety_tol geom_limit skip disp s geom_path true_path (udir d : vec),
+  0 <= geom_limit -> vdot udir udir <= 1 ->
+  msc_displacement safety_tol geom_limit skip disp (Some s) geom_path true_path udir = Some d ->
+  sqrt (vdot d d) <= (1 - safety_tol) * s /\
+  sqrt (vdot d d) <= calc_displacement geom_path true_path /\
+  (0 < safety_tol -> 0 < s -> sqrt (vdot d d) < s).
+Proof. exact msc_displacement_within_safety. Qed.
+Print Assumptions C11_msc_displacement_within_safety.
+
+(** sample_displacement_dir (rotate = make_unit_vector o rotate_raw) is at most a unit vector *)
+Theorem C11_msc_displacement_dir_unit : forall (min_acc u : R) b phi inc_dir,
+  let d := sample_displacement_dir min_acc u b phi inc_dir in vdot d d <= 1.
+Proof. exact sample_displacement_dir_le1. Qed.
+Print Assumptions C11_msc_displacement_dir_unit.
+
+(** UrbanMsc::apply_step with find_safety(max_step): the displaced point is strictly inside the
+    (conservative) safety sphere of every level, so every face keeps its sense: same volume *)
+Theorem C11_msc_displaced_point_in_volume :
+  forall safety_tol geom_limit (levels : list (level (T:=R))) skip disp geom_path true_path (udir d : vec) rho,
+  0 < safety_tol < 1 -> 0 <= geom_limit -> vdot udir udir <= 1 ->
+  (forall l, In l levels -> faces_ok (lv_faces l) (lv_pos l)) ->
+  find_safety levels = Some rho ->
+  msc_apply_step safety_tol geom_limit levels skip disp geom_path true_path udir = Some d ->
+  0 < rho /\ sqrt (vdot d d) <= (1 - safety_tol) * rho /\ sqrt (vdot d d) < rho /\
+  forall l, In l levels -> forall s, In s (lv_faces l) ->
+    same_side s (lv_pos l) (vadd (lv_pos l) d) /\
+    surf_sense s (vadd (lv_pos l) d) = surf_sense s (lv_pos l).
+Proof. exact msc_displaced_point_in_volume. Qed.
+Print Assumptions C11_msc_displaced_point_in_volume.
+
+(** UrbanMscSafetyStepLimit: limit_ >= limit_min, >= safety_factor * safety when the safety is below the range *)
+Theorem C11_msc_limit_bounds : forall safety range range_factor range_init limit_min safety_factor,
+  let lim := msc_limit safety range range_factor range_init limit_min safety_factor in
+  limit_min <= lim /\
+  (safety < range -> safety_factor * safety <= lim /\ range_factor * range_init <= lim) /\
+  (range <= safety -> range <= lim).
+Proof. exact msc_limit_bounds. Qed.
+Print Assumptions C11_msc_limit_bounds.
+
+Theorem C11_msc_step_limit_bounds : forall max_step limit limit_min sampled,
+  limit_min <= max_step ->
+  limit_min <= msc_step_limit max_step limit limit_min sampled <= max_step.
+Proof. exact msc_step_limit_bounds. Qed.
+Print Assumptions C11_msc_step_limit_bounds.
+
+(** the bound handed to find_safety(max_step) suffices: a safety at or above it never cuts the
+    displacement (so find_safety may stop looking beyond max_step), and it is at least geom_limit *)
+Theorem C11_msc_bound_sufficient : forall safety_tol geom_limit g t s,
+  0 <= safety_tol <= 1 / 2 ->
+  msc_safety_bound safety_tol geom_limit g t <= s ->
+  msc_length safety_tol (Some s) g t = calc_displacement g t /\ geom_limit <= s.
+Proof. exact msc_bound_sufficient. Qed.
+Print Assumptions C11_msc_bound_sufficient.
+
+(** ** what C11_min_levels_conservative needs from the navigator: after any sequence of
+    move_internal(dist) / move_to_boundary (both move EVERY level) and set_dir, every level's local
+    position is the (accumulated) transform of the one global position ... *)
+Theorem C11_levels_positions_consistent : forall ops g u ls,
+  levels_consistent g u ls ->
+  let '(g', u', ls') := run_ops ops g u ls in levels_consistent g' u' ls'.
+Proof. exact levels_positions_consistent. Qed.
+Print Assumptions C11_levels_positions_consistent.
+
+(** ... which fails for a move that only updates the levels down to the next surface's level *)
+Theorem C11_move_prefix_refuted :
+  exists (g u : vec3 R) d (ls : list (lstate R)),
+    levels_consistent g u ls /\ ~ levels_consistent (vadd g (vscale d u)) u (move_prefix 0 d ls).
+Proof. exact move_prefix_refuted. Qed.
+Print Assumptions C11_move_prefix_refuted.
